@@ -15,14 +15,14 @@ STRATA = [
     ("threshold", 500, 8000),
     ("planted", 40, 600),
     ("mid", 400, 6000),
-    ("aliased", 6000, 60000),
+    ("aliased", 3500, 60000),
     ("cp-cnf", 400, 6000),
     ("enum", 1500, 25000),
     ("assume", 800, 12000),
     ("tuning", 500, 8000),
     ("reduce", 0, 3),
     ("reduce-planted", 6, 64),
-    ("long-run", 4, 32),
+    ("long-run", 2, 32),
     ("suite", 0, 1),
     ("enum-reduce", 16, 64),
 ]
